@@ -12,6 +12,68 @@ NOT_APPLICABLE = {
 }
 
 PROPERTIES = {
+    "C10": {
+        "modules": ["harness.c10"],
+        "explanation": "",
+        "assumptions": COMMON_ASSUMPTIONS + [
+            "file system = in-memory model bound to open / os.path.isfile inside ledger.pin: opening for writing truncates; a failing "
+            "operation raises OSError and has no effect; a write is all-or-nothing",
+            "crash = the process dies after N file/device operations: modelled by a BaseException at the next operation, all later "
+            "operations have no effect",
+            "a link fault / error status on the change command means the device did NOT apply the new PIN (the ambiguous case 'applied but "
+            "the acknowledgement was lost' cannot be resolved by any host-side protocol and is outside the claim)",
+            "random.choice inside ledger.pin is replaced by harness-chosen indices; device = sim/ledger.py with a real PIN comparison",
+        ],
+        "level_text": "bounded symbolic verification of start / change / restart histories: the failing file operation and the crash position "
+                      "are solver variables, platform x start state x device reaction are partitions; PIN policy and generator decided for "
+                      "all byte values two positions at a time",
+        "level_note": "trusted: CrossHair/z3, the file-system and crash model, the simulated device",
+    },
+    "C03": {
+        "modules": ["harness.c03"],
+        "explanation": "",
+        "assumptions": COMMON_ASSUMPTIONS + [
+            "'as long as the device keeps to its protocol' = sim/ledger.py, conforming answers of the documented lengths",
+            "symbolic mode: the json module inside comm.server is an environment stub (loads returns the harness-built request or raises "
+            "JSONDecodeError / RecursionError / ValueError / UnicodeDecodeError-for-bytes-input; dumps records the reply object); "
+            "replay uses the real json end to end with a real request line",
+            "raw-byte level (readline, strip, decode) is covered by the catalogue of 9 lines, not by symbolic bytes",
+            "socket-level behaviour (accept loop, shutdown thread) is outside: the assertion is on what leaves _RequestHandler.handle, "
+            "which _TCPServerRequestHandler maps 1:1 onto shutdown / keep serving",
+            "one inductive step from a symbolic pending-reconnect flag stands for histories of any length (the flag and the device are the "
+            "only cross-request state)",
+        ],
+        "level_text": "bounded symbolic verification of the request handler: integer fields over all of Z, typed deviations of every field, "
+                      "catalogues of malformed blocks / oversized fields / hostile command values; oracle = one reply line with an integer errorcode and no shutdown",
+        "level_note": "trusted: CrossHair/z3, the json environment stub (symbolic mode), the simulated device",
+    },
+    "C02": {
+        "modules": ["harness.c02"],
+        "explanation": "",
+        "assumptions": COMMON_ASSUMPTIONS + [
+            "oracle = harness/spec.py, a reading of docs/protocol.md and docs/protocol-v1.md that returns the SET of admissible verdicts "
+            "(the documents leave precedence between simultaneous errors, whitespace inside hex strings and 5.0-as-version open)",
+            "'accepted' = passes the generic gate, the per-command validators and the ledger-side second stage of sign; what the APDU layer "
+            "later does with an accepted request (e.g. an undecodable block => -204 after INIT) is not a classification matter",
+            "symbolic strings are ASCII and <= 4 characters; one deviating field at a time (lists: every element independently)",
+            "device = sim/ledger.py, conforming; block / transaction helpers run natively on concrete catalogue entries",
+        ],
+        "level_text": "bounded symbolic verification of handle_request against a specification oracle: the deviating value (type, integer "
+                      "value over Z, string contents) is decided by the solver per (command, field) partition",
+        "level_note": "trusted: CrossHair/z3, harness/spec.py as the reading of the documents, the simulated device",
+    },
+    "C13": {
+        "modules": ["harness.c13"],
+        "explanation": "",
+        "assumptions": COMMON_ASSUMPTIONS + [
+            "device = sim/ledger.py; device data (key / hash / difficulty / flag / network / heartbeat / signature bytes) are solver variables",
+            "hex rendering of device bytes is modelled lazily (LazyHex = 'the hex of these bytes') because rendering realises symbolic bytes; "
+            "replay uses the real bytes.hex()",
+        ],
+        "level_text": "bounded symbolic verification: all 2^288 difficulties, all flag/network bytes, all DER byte strings up to the bound; "
+                      "oracle = documented field names + firmware selectors",
+        "level_note": "trusted: CrossHair/z3, the simulated device, formatting stubs",
+    },
     "C11": {
         "modules": ["harness.c11"],
         "explanation": "",
@@ -43,9 +105,15 @@ PROPERTIES = {
     "C09": {
         "modules": ["harness.c09"],
         "explanation": "",
-        "assumptions": COMMON_ASSUMPTIONS + [],
-        "level_text": "bounded symbolic verification: every device configuration byte (mode, onboard flag, version triples, retries) is a solver variable; "
-                      "the oracle is the property statement written as a predicate on the APDU log and on whether bring-up returns",
-        "level_note": "trusted: CrossHair/z3, the simulated UI/signer device (harness/sim), formatting stubs",
+        "assumptions": COMMON_ASSUMPTIONS + [
+            "device = sim/ledger.py (Ledger UI, TCP and SGX personalities); its mode / onboard / version / retries / echo / unlock bytes are solver variables",
+            "socketserver inside comm.server is stubbed: 'starts serving' = TCPServer.run reaches serve_forever",
+            "PIN object = FixedPin stand-in (the PIN file is C10's subject); time.sleep and hid.hidapi_exit are no-ops",
+            "platform classes: HSM2Dongle (Ledger), HSM2DongleTCP, HSM2DongleSGX over the same transport stub",
+        ],
+        "level_text": "bounded symbolic verification: every device configuration byte (mode, onboard flag, version triples, retries, unlock "
+                      "answer, post-unlock mode) is a solver variable; the oracle is the property statement written as a predicate on the "
+                      "APDU log and on whether the manager starts serving",
+        "level_note": "trusted: CrossHair/z3, the simulated UI/signer device (sim/ledger.py), formatting stubs",
     },
 }
